@@ -206,7 +206,9 @@ def run(ctx):
            'groups enter a container only in setup_and_add_group and in the averaging function '
            '(sites: %s)' % sorted(q for _m, q, _c in app_sites), cc, cc.tree)
     sag = cc.func('ConformationContainer.setup_and_add_group')
-    calls_sag = [last_attr(c) for c in calls_in(sag, nested=False)]
+    from sa.astutil import is_inert_stmt, effective
+    calls_sag = [last_attr(c) for c in calls_in(sag, nested=False)
+                 if not (isinstance(c._parent, ast.Expr) and is_inert_stmt(c._parent))]
     ctx.ob('C01.R3', 'setup_and_add_group:init-then-append-once',
            calls_sag == ['init_group', 'append'],
            'setup_and_add_group initialises the group and appends it exactly once (%s)' % calls_sag,
